@@ -19,6 +19,8 @@ pub type FcntUp = u32;
 mod session;
 use rand_core::RngCore;
 pub use session::{Session, SessionKeys};
+#[cfg(feature = "verif-hooks")]
+pub use session::verif_next_fcnt_down;
 
 mod otaa;
 pub use otaa::NetworkCredentials;
@@ -437,6 +439,69 @@ impl Mac {
     #[cfg(feature = "class-c")]
     pub(crate) fn get_rxc_config(&self) -> RxConfig {
         RxConfig { rf: self.rx2_rf_config(self.configuration.data_rate), mode: RxMode::Continuous }
+    }
+}
+
+/// Verification hook: read-only copy of the MAC configuration and channel plan.
+#[cfg(feature = "verif-hooks")]
+#[derive(Debug, Clone, Copy, PartialEq, Eq)]
+pub struct VerifSnapshot {
+    pub joined: bool,
+    pub data_rate: u8,
+    pub tx_power: Option<u8>,
+    pub rx1_dr_offset: u8,
+    pub rx2_data_rate: Option<u8>,
+    pub rx2_frequency: Option<u32>,
+    pub rx1_delay: u32,
+    pub adr_enabled: bool,
+    pub plan: region::VerifPlan,
+}
+
+/// Verification hook: what the channel selector would choose for the next transmission.
+#[cfg(feature = "verif-hooks")]
+#[derive(Debug, Clone, Copy, PartialEq)]
+pub struct VerifTx {
+    pub frequency: u32,
+    pub dr: u8,
+    pub bb: BaseBandModulationParams,
+    pub rx1: RfConfig,
+    pub rx2: RfConfig,
+}
+
+#[cfg(feature = "verif-hooks")]
+impl Mac {
+    pub(crate) fn verif_snapshot(&self) -> VerifSnapshot {
+        VerifSnapshot {
+            joined: self.is_joined(),
+            data_rate: self.configuration.data_rate as u8,
+            tx_power: self.configuration.tx_power,
+            rx1_dr_offset: self.configuration.rx1_dr_offset,
+            rx2_data_rate: self.configuration.rx2_data_rate.map(|d| d as u8),
+            rx2_frequency: self.configuration.rx2_frequency,
+            rx1_delay: self.configuration.rx1_delay,
+            adr_enabled: self.configuration.adr_enabled,
+            plan: self.region.verif_plan(),
+        }
+    }
+
+    /// Runs the real channel selector on a clone of the region state, leaving `self` untouched.
+    pub(crate) fn verif_tx_outcome<RNG: RngCore>(&self, rng: &mut RNG, join: bool) -> VerifTx {
+        let mut region = self.region.clone();
+        let frame = if join {
+            Frame::Join
+        } else {
+            Frame::Data
+        };
+        let (tx_config, tx_channel) =
+            region.create_tx_config(rng, self.configuration.data_rate, &frame);
+        let windows = self.rx_windows(&tx_channel);
+        VerifTx {
+            frequency: tx_config.rf.frequency,
+            dr: tx_channel.dr as u8,
+            bb: tx_config.rf.bb,
+            rx1: windows.rx1,
+            rx2: windows.rx2,
+        }
     }
 }
 
